@@ -196,9 +196,12 @@ def sampleMany {α : Type} (draw : St → R (α × St)) : Nat → St → R (List
 def encTernary (q : Nat) (v : Int) : R Nat :=
   if v = -1 then ckSub q 1 else if v = 0 then .ok 0 else if v = 1 then .ok 1 else .error .other
 
-/-- RNS encoding of an error sample (`if sampled >= 0 { sampled as u64 } else { q - sampled.unsigned_abs() }`) -/
+/-- RNS encoding of an error sample (after the repair of the small-modulus underflow):
+    `let magnitude = sampled.unsigned_abs() as u64 % q;
+     if sampled >= 0 || magnitude == 0 { magnitude } else { q - magnitude }`  (`% 0` panics) -/
 def encError (q : Nat) (v : Int) : R Nat :=
-  if v ≥ 0 then .ok v.toNat else ckSub q v.natAbs
+  if q = 0 then .error .other else
+  if v ≥ 0 ∨ v.natAbs % q = 0 then .ok (v.natAbs % q) else ckSub q (v.natAbs % q)
 
 /-- `mapM` in `Except`, written out (first refusal wins) -/
 def mapR {α β : Type} (f : α → R β) : List α → R (List β)
